@@ -98,6 +98,28 @@ def run(ctx):
                 ctx.violate("vnc-response-on-the-wire", {"input": {"client": kind, "banner": ver.decode(), "password": pw, "challenge": hx(ch)},
                                                          "impl": "writes after the challenge: %r; trace %r" % (ws[1:], rfbgen.toks(tr)[-4:]), "spec": want,
                                                          "how": "whole handshake on an in-memory transport: the bytes the client writes in answer to the challenge"})
+    # whole Apple Remote Desktop conversations: the server offers security type 30 (alone, or next to VNC authentication /
+    # None in any order); the client names 30, says nothing until generator, key length, modulus and server key have all
+    # arrived, then sends exactly one reply of 128 + keyLen bytes
+    for offer in ([30], [2, 30], [30, 2], [1, 30], [30, 1, 2], [18, 30, 2]):
+        for kind in ("lib", "base"):
+            L = r.choice([1, 2, 8, 16, 128])
+            mod = (r.getrandbits(8 * L) | 1 | (1 << (8 * L - 1))).to_bytes(L, "big")
+            skey = r.getrandbits(8 * L).to_bytes(L, "big")
+            cl, tr, _ = rfbgen.new_client(kind, password="pw", username="user")
+            parts = [b"RFB 003.008\n", bytes([len(offer)]) + bytes(offer), struct.pack("!HH", r.choice([2, 5]), L), mod[:max(1, L // 2)], mod[max(1, L // 2):] + skey[:L - 1]]
+            per = rfbgen.feed_impl(cl, tr, parts)
+            early = [t for q in per[2:] for t in q if t.startswith("w:")]
+            sel = [t for t in per[1] if t.startswith("w:")]
+            per2 = rfbgen.feed_impl(cl, tr, [skey[L - 1:]])
+            final = [t for t in per2[0] if t.startswith("w:")]
+            ctx.count("ard_conversations")
+            ctx.case(None, key=("ard-conv", tuple(offer), kind, L))
+            if sel != ["w:1e"] or early or final != ["w:" + rfbgen.ARD_TOKEN.hex()]:
+                ctx.violate("ard-conversation", {"input": {"client": kind, "offered_security_types": offer, "keyLen": L},
+                                                 "impl": "selected %r; wrote %r before the server key was complete; then %r" % (sel, early, final),
+                                                 "spec": "selects 30 (the highest it supports), is silent until the server key is complete, then one reply (128 + keyLen bytes)",
+                                                 "how": "whole handshake on an in-memory transport (the reply's content is checked by the _encryptArd leg)"})
     # spec (Lean DES) vs Cryptodome, on the same cases
     for pw, ch in cases[:ctx.n(150, 1500)]:
         lines.append("crypto specresp %s %s" % (pw.encode("ascii")[:8].hex() or "-", hx(ch)))
